@@ -43,6 +43,7 @@ SvcClauses(i, o, pts) ==
     ELSE IF ~SumZero(o.w16, Q1) THEN "SumZero"
     ELSE IF ~DirectionOK(i.X, i.y, o.sv, o.w16, Q1) THEN "DirectionOK"
     ELSE IF SvcExpChecked(o) /\ ~ExpansionOK(i.kernel, o.sv, o.w10, o.b10, o.kq, pts, o.f10, Q1) THEN "ExpansionOK"
+    ELSE IF o.fok /\ IsRootKernel(i.kernel) /\ ~KqRootClosed(i.kernel, o.sv, o.kq, pts) THEN "PolyClosed"
     ELSE IF ~(o.predint /\ Len(o.fs) = Len(pts) /\ LabelOK(i.y, o.fs, o.pred)) THEN "LabelOK"
     ELSE ""
 
@@ -62,6 +63,9 @@ SvcTags(e) ==
                \cup (IF HasDuplicateRows(e.in.X) THEN {"SvcDupRows"} ELSE {})
                \cup (IF e.out.finite /\ SvcExpChecked(e.out) THEN {"SvcExpansion"} ELSE {"SvcExpSkipped"})
                \cup (IF Len(e.out.sv) < Len(e.in.X) THEN {"SvcSparse"} ELSE {})
+               \cup (IF e.out.finite /\ e.out.fok /\ IsRootKernel(e.in.kernel)
+                        /\ KqRootChecked(e.in.kernel, e.out.sv, e.out.kq, e.in.X \o e.in.Q)
+                     THEN {"FitRootClosed"} ELSE {})
           ELSE {})
 
 (* ---------------------------------------------------------------------- *)
@@ -69,7 +73,7 @@ SvcTags(e) ==
 (* ---------------------------------------------------------------------- *)
 (* kernels for which the statement promises termination and optimality *)
 PsdKernel(k) == \/ k.name \in {"linear", "rbf"}
-                \/ (k.name = "poly" /\ k.cn >= 0 /\ k.gn >= 0 /\ k.deg >= 1)
+                \/ (k.name = "poly" /\ k.dd = 1 /\ k.cn >= 0 /\ k.gn >= 0 /\ k.deg >= 1)   \* integer degree
 
 Residuals(y16, f16) == [i \in 1..Len(y16) |-> y16[i] - f16[i]]
 
@@ -81,6 +85,7 @@ SvrClauses(i, o, pts) ==
     ELSE IF ~BoxOK(o.w16, i.C16, Q1) THEN "BoxOK"
     ELSE IF ~SumZero(o.w16, Q1) THEN "SumZero"
     ELSE IF SvcExpChecked(o) /\ ~ExpansionOK(i.kernel, o.sv, o.w10, o.b10, o.kq, pts, o.f10, Q1) THEN "ExpansionOK"
+    ELSE IF o.fok /\ IsRootKernel(i.kernel) /\ ~KqRootClosed(i.kernel, o.sv, o.kq, pts) THEN "PolyClosed"
     ELSE IF PsdKernel(i.kernel) /\ o.fok /\ Len(o.f16) = Len(i.X)
             /\ ~SvrKktOK(i.X, o.sv, o.w16, Residuals(i.y16, o.f16), i.C16, i.eps16, i.tol16, QK) THEN "SvrKKT"
     ELSE ""
@@ -104,16 +109,22 @@ SvrTags(e) ==
                      THEN {"SvrBoundAndInside"} ELSE {})
                \cup (IF HasDuplicateRows(e.in.X) THEN {"SvrDupRows"} ELSE {})
                \cup (IF SvcExpChecked(e.out) THEN {"SvrExpansion"} ELSE {"SvrExpSkipped"})
+               \cup (IF e.out.fok /\ IsRootKernel(e.in.kernel)
+                        /\ KqRootChecked(e.in.kernel, e.out.sv, e.out.kq, e.in.X \o e.in.Q)
+                     THEN {"FitRootClosed"} ELSE {})
           ELSE IF e.status # "ok" THEN {"SvrNoResult"} ELSE {})
 
 (* ---------------------------------------------------------------------- *)
 (* kernels                                                                 *)
 (* ---------------------------------------------------------------------- *)
 KClauses(i, o) ==
-    IF ~o.qok THEN "KFinite"
+    IF RootUndefined(i.kernel, i.x, i.z) THEN ""      \* fractional power of a negative base: statement silent
+    ELSE IF ~o.qok THEN "KFinite"
     ELSE IF ~KSymmetric(i, o) THEN "KSymmetric"
     ELSE IF i.kernel.name = "linear" /\ ~LinearClosed(i, o) THEN "LinearClosed"
-    ELSE IF i.kernel.name = "poly" /\ PolyInRange(i.kernel, i.x, i.z, i.S) /\ ~PolyClosed(i, o) THEN "PolyClosed"
+    ELSE IF i.kernel.name = "poly" /\ i.kernel.dd = 1 /\ PolyInRange(i.kernel, i.x, i.z, i.S) /\ ~PolyClosed(i, o) THEN "PolyClosed"
+    ELSE IF IsRootKernel(i.kernel) /\ RootInRange(i.kernel, i.x, i.z, o.v, i.S) /\ ~RootClosed(i, o) THEN "PolyClosed"
+    ELSE IF IsRootKernel(i.kernel) /\ o.sgn < 0 THEN "PolyClosed"      \* a real power of a non-negative base is >= 0
     ELSE IF i.kernel.name = "rbf" /\ ~RbfPoint(i, o) THEN "RbfClosed"
     ELSE IF i.kernel.name = "sigmoid" /\ ~SigPoint(i, o) THEN "SigmoidClosed"
     ELSE ""
@@ -122,7 +133,12 @@ KVerdict(e) == IF e.status # "ok" THEN "KReturns" ELSE KClauses(e.in, e.out)
 
 KTags(e) ==
     {"K_" \o e.in.kernel.name}
-    \cup (IF e.in.kernel.name = "poly" /\ ~PolyInRange(e.in.kernel, e.in.x, e.in.z, e.in.S) THEN {"KSkipped"} ELSE {})
+    \cup (IF e.in.kernel.name = "poly" /\ e.in.kernel.dd = 1 /\ ~PolyInRange(e.in.kernel, e.in.x, e.in.z, e.in.S) THEN {"KSkipped"} ELSE {})
+    \cup (IF RootUndefined(e.in.kernel, e.in.x, e.in.z) THEN {"KRootUndefined"}
+          ELSE IF IsRootKernel(e.in.kernel) /\ e.status = "ok" /\ e.out.qok
+          THEN (IF RootInRange(e.in.kernel, e.in.x, e.in.z, e.out.v, e.in.S)
+                THEN {"KRoot" \o (IF e.in.kernel.dd = 2 THEN "2" ELSE "4")} ELSE {"KSkipped"})
+          ELSE {})
     \cup (IF e.in.kernel.name = "rbf" /\ e.in.kernel.gn * D2(e.in.x, e.in.z) <= e.in.kernel.gd /\ D2(e.in.x, e.in.z) > 0
           THEN {"RbfTaylor"} ELSE {})
     \cup (IF e.in.kernel.name = "sigmoid" /\ SigTaylorGuard(ArgDen(e.in.kernel), e.in.S)
@@ -173,6 +189,7 @@ HitNames == {"SvcFit", "Svc_linear", "Svc_rbf", "Svc_poly", "Svc_sigmoid", "SvcS
              "SvrFit", "Svr_linear", "Svr_rbf", "Svr_poly", "Svr_sigmoid", "SvrKKT", "SvrKKTSkipped", "SvrZeroWeight",
              "SvrFree", "SvrAtC", "SvrBoundAndInside", "SvrDupRows", "SvrExpansion", "SvrExpSkipped", "SvrNoResult",
              "K_linear", "K_rbf", "K_poly", "K_sigmoid", "KSkipped", "RbfTaylor", "SigTaylor",
+             "KRoot2", "KRoot4", "KRootUndefined", "FitRootClosed",
              "Gram_linear", "Gram_rbf", "Gram_sigmoid", "Gram_poly", "RbfFunctional", "SigAddition", "GramSingular",
              "Unknown"}
 
